@@ -33,6 +33,28 @@ def materialise(p: dict, lay: Layout = CANON) -> tuple[str, dict]:
 def run_ir(p: dict, lay: Layout = CANON, tap: bool = False, defines: dict | None = None) -> tuple[Result, str, list]:
     src, files = materialise(p, lay)
     events: list = []
+    fname = "t.s"
+    if files and (len(src) % 3 == 0 or p.get("source_name")):
+        # the name under which a source is assembled is a label for messages: quoted paths stay relative to the working directory.
+        # A third of the programs with files are assembled under a name in another directory, with a decoy of every file there.
+        from vf.frontends import decoy
+
+        fname = p.get("source_name") or "proj/src/main.s"
+        d = fname.rsplit("/", 1)[0]
+        files = dict(files)
+        for k, v in list(files.items()):
+            files.setdefault(f"{d}/{k}", decoy(v))
+    if fname != "t.s":
+        if tap:
+            t = nodetap()
+            t.start()
+            try:
+                r = assemble(src, files=files or None, rom=p.get("rom"), defines=defines, filename=fname)
+            finally:
+                events = t.stop()
+        else:
+            r = assemble(src, files=files or None, rom=p.get("rom"), defines=defines, filename=fname)
+        return r, src, events
     if tap:
         t = nodetap()
         t.start()
